@@ -143,6 +143,28 @@ def check_scale(case) -> Outcome:
         a1, a2 = np.asarray(mm, dtype=float).ravel(), np.asarray(mm2, dtype=float).ravel()
         if a1.shape != exp.shape or a2.shape != exp2.shape or not np.allclose(a1, exp, rtol=1e-9, atol=tol * (spread / sval)) or not np.allclose(a2, exp2, rtol=1e-9, atol=1e-9 * scale_f):
             out.fail("formula-follow-up", f"{src} trained on {case['x']}, applied to {case['follow']}", **feat)
+        # the transform only inside an interaction of a subset of the fitted spec: the subset still applies the
+        # recorded statistics
+        w1, w2 = 1.0 + (np.arange(n) % 3), 1.0 + (np.arange(len(fol)) % 2)
+        mm = model_matrix(f"{src} + {src}:w - 1", pd.DataFrame({"x": x, "w": w1}))
+        sub = mm.model_spec.subset([f"{src}:w"])
+        s2_ = np.asarray(sub.get_model_matrix(pd.DataFrame({"x": fol, "w": w2})), dtype=float).ravel()
+        if s2_.shape != exp2.shape or not np.allclose(s2_, exp2 * w2, rtol=1e-9, atol=2e-9 * scale_f):
+            out.fail("subset-follow-up", f"subset [{src}:w] of '{src} + {src}:w - 1' trained on {case['x']}, applied to {case['follow']}", **feat)
+        # the transform nested around center(): the inner transform keeps its own recorded statistic
+        if abs(m) <= 1e6 * spread:
+            z = x - m
+            c2 = math.fsum(z) / n if cen is True else (0.0 if cen is False else float(cen))
+            zc = z - c2
+            v2 = math.sqrt(math.fsum(v * v for v in zc) / (n - ddof)) if scl is True else (1.0 if scl is False else float(scl))
+            nested = src.replace("(x", "(center(x)", 1)
+            mm = model_matrix(f"{nested} - 1", pd.DataFrame({"x": x}))
+            n1 = np.asarray(mm, dtype=float).ravel()
+            n2 = np.asarray(mm.model_spec.get_model_matrix(pd.DataFrame({"x": fol})), dtype=float).ravel()
+            e1, e2 = zc / v2, ((fol - m) - c2) / v2
+            sf2 = max(np.abs(e2).max(), 1.0) + 1e-6 * abs(m) / v2
+            if n1.shape != e1.shape or n2.shape != e2.shape or not np.allclose(n1, e1, rtol=1e-8, atol=1e-8 * sf2) or not np.allclose(n2, e2, rtol=1e-8, atol=1e-8 * sf2):
+                out.fail("nested-follow-up", f"{nested} trained on {case['x']}, applied to {case['follow']}: max err {np.abs(n2 - e2).max() if n2.shape == e2.shape else 'shape'}", **feat)
     out.nontrivial = fol is not None or n >= 3
     return out
 
